@@ -62,5 +62,7 @@ SelfContained(raw) ==
 ApplyCfg(raw) ==
   LET kp == KeptProds(raw) IN
   [id |-> raw.id, G |-> Filtered(raw), sp |-> NewIndex(raw, raw.sp), n |-> raw.n, inject |-> raw.inject,
-   P |-> [j \in DOMAIN kp |-> raw.P[kp[j]]], inl |-> raw.inl]
+   P |-> [j \in DOMAIN kp |-> raw.P[kp[j]]], inl |-> raw.inl,
+   kinds |-> LET G2 == Filtered(raw) IN
+             [i \in DOMAIN G2.nts |-> raw.kinds[CHOOSE j \in DOMAIN raw.G.nts : raw.G.nts[j] = G2.nts[i]]]]
 =============================================================================
